@@ -109,9 +109,14 @@ def run(case):
     tags = ["op:" + op]
     CTX.tick("c17:compare")
     if op == "intervals":
-        starts = np.array(case["starts"], dtype=np.int64)
-        ends = np.array(case["ends"], dtype=np.int64)
+        idt = case.get("idtype", "int64")        # the interval coordinates in any integer type that holds them (possibly not the row length)
+        starts = np.array(case["starts"], dtype=idt)
+        ends = np.array(case["ends"], dtype=idt)
+        if idt != "int64":
+            tags.append("intervals:narrow-dtype")
         L, val = case["row_len"], case["value"]
+        if case.get("lentype"):
+            L = np.dtype(case["lentype"]).type(L)
         exp = np.zeros((len(starts), L), dtype=np.asarray(val).dtype)
         for i, (s, e) in enumerate(zip(starts.tolist(), ends.tolist())):
             exp[i, s:e] = val
@@ -403,7 +408,14 @@ def gen_case(rng, tier, op=None, variant=None, dtype=None):
         L = rng.randint(1, 9)
         k = rng.randint(1, 5)
         st = [rng.randint(0, L - 1) for _ in range(k)]
-        return {"op": op, "starts": st, "ends": [rng.randint(s + 1, L) for s in st], "row_len": L, "value": rng.choice([1, 3, True, 2.5])}
+        c = {"op": op, "starts": st, "ends": [rng.randint(s + 1, L) for s in st], "row_len": L, "value": rng.choice([1, 3, True, 2.5])}
+        if rng.random() < 0.5:
+            # rows far longer than the intervals reach: the coordinates fit a narrow integer type that cannot hold the row length
+            c["row_len"] = rng.choice([300, 1000, 40000, 70000])
+            c["idtype"] = rng.choice(["uint8", "int8", "int16", "uint16", "int32", "uint64"])
+            if rng.random() < 0.3:
+                c["lentype"] = rng.choice(["int64", "int32", "uint32"])
+        return c
     ragged_only = op in ("col_int", "col_slice", "ravel", "concat", "npfunc")
     variant = variant or rng.choice(["ragged", "ragged_from_matrix"] if ragged_only else ["2d", "ragged", "ragged_from_matrix"])
     for _ in range(30):
@@ -517,6 +529,12 @@ def directed():
             yield {"op": "npfunc", "variant": variant_, "dtype": "int64", "rows": big_, "name": "sum", "axis": -1}
             yield {"op": "red_row", "variant": variant_, "dtype": "int64", "rows": big_, "name": "max"}
     yield {"op": "red_row", "variant": "ragged", "dtype": "uint64", "rows": [[2 ** 63, 1, 1, 2 ** 62], [2 ** 53 + 1, 2 ** 53 + 1, 7, 7, 7]], "name": "sum"}
+    # tens of thousands of rows of narrow integers of the same sign: column totals far beyond 2**31 (and the rows beyond 2**15)
+    for dtype_, v_, nrows_ in (("int16", 30000, 80000), ("int16", -30000, 72000), ("int8", 120, 70000), ("uint16", 60000, 70001), ("int32", 2 ** 30, 9)):
+        rows_ = [[v_ - (i % 3), v_, v_ - 1] for i in range(nrows_)]
+        for variant_ in ("2d", "ragged_from_matrix"):
+            for name_ in ("sum", "mean") if variant_ != "2d" else ("sum",):
+                yield {"op": "red_col", "variant": variant_, "dtype": dtype_, "rows": rows_, "name": name_}
     # a float column with entries of very different magnitude applied to a column-range selection (and to what is computed from it)
     F_ = [[1.0, 1.0, 2.0, 2.0, 2.0], [3.0, 3.0, 3.0, 0.5], [0.25, 0.25, 4.0, 4.0], [1.5, 1.5, 1.5]]
     for col_ in ([1e16, 1.0, 3.0, 0.5], [0.1, 0.7, 0.3, 0.9]):
@@ -571,6 +589,52 @@ def _with_swap(rng, c):
     if isinstance(c, dict) and "dtype" in c and np.dtype(c["dtype"]).kind in "iu" and rng.random() < 0.12:
         c["bswap"] = True
     return c
+
+
+def const_case(rng, tier, s, form):
+    """sizes taken from the constants of the source / next to the capacity of a narrow integer type: the longest row (ragged variant) resp. the row
+    length (matrix variant) or the number of rows is s; column and row aggregates, decoding and a column range on it"""
+    from ..codeconst import CAPACITY
+    special = gen.FORCED.get("novel") or any(abs(s - c_) <= 1 for c_ in CAPACITY)
+    if not special or s > 300000 or form not in ("rowlen", "rows", "cells"):
+        c = random_case(rng, tier)
+        return c if gen.FORCED["used"] else None
+    gen.FORCED["used"] += 1
+    out = []
+    dtype = rng.choice(["int64", "uint8", "bool", "float64", "int16"])
+    pool = [True, False] if dtype == "bool" else ([1.5, 2.0, 0.0] if dtype == "float64" else [0, 1, 3, 7])
+
+    def row(L):
+        out_, v = [], 0
+        while len(out_) < L:
+            v = (v + rng.randint(1, 2)) % len(pool)
+            out_ += [pool[v]] * rng.randint(1, 9)
+        out_ = out_[:L]
+        k_ = len(out_) - 1
+        while k_ >= 0 and not out_[k_]:
+            out_[k_] = pool[0] if pool[0] else pool[1]       # (rows end in a value that counts: an aggregate that loses the row's closing step shows it)
+            k_ -= 1
+        return out_
+    if form == "rows":
+        ragged = [row(rng.randint(1, 3)) for _ in range(s)]
+        matrix = [row(2) for _ in range(s)]
+    else:
+        ragged = [row(3), row(s), row(max(1, s - 1)), row(5)]
+        matrix = [row(s) for _ in range(3)]
+    if s > 20000:
+        # (long rows are costly for the list oracle: the ragged variant's column aggregates and the matrix variant's column sum only)
+        if form != "rowlen":
+            return None
+        return [{"op": "red_col", "variant": "ragged", "dtype": dtype, "rows": ragged, "name": "sum"}, {"op": "red_col", "variant": "ragged", "dtype": dtype, "rows": ragged, "name": "mean"},
+                {"op": "red_col", "variant": "2d", "dtype": dtype, "rows": matrix[:2], "name": "sum"}]
+    for variant, rows_ in (("ragged", ragged), ("2d", matrix), ("ragged_from_matrix", matrix)):
+        for op, extra in (("red_col", {"name": "sum"}), ("red_col", {"name": "mean"} if variant != "2d" else {"name": "any"}), ("red_row", {"name": "sum"}), ("decode", {})):
+            if variant == "2d" and extra.get("name") == "any" and dtype == "float64":
+                continue
+            out.append(dict({"op": op, "variant": variant, "dtype": dtype, "rows": rows_}, **extra))
+        if variant != "2d":
+            out.append({"op": "red_col", "variant": variant, "dtype": dtype, "rows": rows_, "name": "col_counts"})
+    return out
 
 
 def random_case(rng, tier):
